@@ -9,6 +9,7 @@ import numpy as np
 import z3
 
 from symx import core, solve
+from harness import c02m
 from symx.case import Case, Holds, Ang, run_cases, replay_cases
 from symx.core import R, Dual, CTX, SB, var, PI, explore
 from symx.npx import det3
@@ -19,14 +20,25 @@ FUNCS = ["beyond.utils.matrix:rot1", "beyond.utils.matrix:rot2", "beyond.utils.m
          "beyond.frames.orient:Orientation.convert_to", "beyond.frames.orient:Orientation.PEF_to_TOD",
          "beyond.frames.orient:Orientation.TIRF_to_CIRF", "beyond.frames.orient:LocalOrbitalOrientation._to_parent",
          "beyond.frames.center:Center.convert_to", "beyond.frames.center:Center._to_parent", "beyond.frames.frames:Frame.transform",
-         "beyond.frames.frames:orbit2frame", "beyond.frames.iau1980:_sideral", "beyond.frames.iau1980:rate", "beyond.frames.iau2010:rate"]
+         "beyond.frames.frames:orbit2frame", "beyond.frames.iau1980:_sideral", "beyond.frames.iau1980:rate", "beyond.frames.iau2010:rate",
+         "beyond.frames.iau1980:_precesion", "beyond.frames.iau1980:precesion", "beyond.frames.iau1980:_nutation",
+         "beyond.frames.iau1980:nutation", "beyond.frames.iau1980:equinox", "beyond.frames.iau1980:sideral",
+         "beyond.frames.iau1980:_earth_orientation", "beyond.frames.iau1980:earth_orientation",
+         "beyond.frames.iau2010:_sideral", "beyond.frames.iau2010:sideral", "beyond.frames.iau2010:_earth_orientation",
+         "beyond.frames.iau2010:earth_orientation", "beyond.frames.iau2010:_planets", "beyond.frames.iau2010:_xysxy2",
+         "beyond.frames.iau2010:_xys", "beyond.frames.iau2010:precesion_nutation"]
 STUBS = ["path composition: every <A>_to_<B> provider of the real orientation graph -> typed formal rotation (generator of the free "
          "groupoid); np.linalg.inv -> formal inverse; products reduce words", "kinematics: iau1980/2010.sideral -> the real rot3 of a "
          "time-dependent angle (dual number), rate -> (0, 0, w)", "orbit-attached frame: reference orbit -> object-dtype Carrier; "
-         "np.linalg.inv -> exact cofactor inverse", "date -> object with a symbolic julian_century for the GMST polynomial"]
+         "np.linalg.inv -> exact cofactor inverse", "date -> object with a symbolic julian_century for the GMST polynomial",
+         "models: Date -> DStub exposing symbolic julian_century / d / jd per scale and symbolic EOP values; the 106-row (1980) and "
+         "1600-row (2000) series tables -> 1-3 rows of symbolic coefficients; for the matrix-arrangement cases the angle providers "
+         "(_precesion, _nutation, _sideral, _earth_orientation, _xys) -> symbolic angles; cos/sin of a polynomial argument -> one "
+         "unit-circle atom per distinct argument term"]
 ASSUMPTIONS = ["exact reals", "providers are arbitrary rotations for the path-composition clause (holds for any content of the IAU models)"]
-OUTSIDE = ["agreement of the IAU-1980/2010 numbers with independent sidereal time, Earth-rotation angle and precession; 1980 vs 2010 "
-           "< 0.1 arcsec; real IERS files (106/1600-term series and tables: no algebraic oracle)",
+OUTSIDE = ["the numbers inside the 106-row and 1600-row IERS series tables (no independent copy offline; the series *evaluation* is "
+           "checked on symbolic tables) and therefore the numerical 1980-vs-2010 agreement < 0.1 arcsec; the EOP file readers (C03)",
+           "the reference constants of the models are transcribed from Vallado / IERS Conventions by the harness author",
            "EOP missing policy (C03)"]
 ORIENTS = ["EME2000", "MOD", "TOD", "TEME", "PEF", "ITRF", "TIRF", "CIRF", "GCRF", "G50"]
 
@@ -346,7 +358,7 @@ def orbitframe_case(orientation):
 def all_cases(tier):
     return [rot_case(1), rot_case(2), rot_case(3), kinematic_case("PEF_to_TOD"), kinematic_case("TIRF_to_CIRF"), gmst_rate_case(),
             rate_vector_case("beyond.frames.iau1980"), rate_vector_case("beyond.frames.iau2010"),
-            orbitframe_case("QSW"), orbitframe_case("TNW"), orbitframe_case(None)]
+            orbitframe_case("QSW"), orbitframe_case("TNW"), orbitframe_case(None)] + c02m.cases(tier)
 
 
 def groups(tier):
